@@ -453,7 +453,9 @@ class FullExecutor(Executor):
         else:
             self.callees.add(c.key)
         proto = c.ensures or c.requires
-        if real_fn is not None and c.kind != "external":
+        if c.params is not None:
+            params, defaults = list(c.params), {}
+        elif real_fn is not None and c.kind != "external":
             params, defaults = self.real_signature(real_fn)
         elif proto is not None:
             _, ps = contract_ast(proto)
@@ -525,6 +527,10 @@ class FullExecutor(Executor):
                     pre = self.eval_contract(sub, c.requires, fb) if c.requires is not None else z3.BoolVal(True)
                     app = REC_DECLS[fk](*[f.z for f in formals])
                     fb2 = dict(fb)
+                    for gname, gty in c.ghost_out.items():
+                        # ghost outputs of a deterministic function are functions of its arguments too
+                        gd = z3.Function("ghost_" + T._mangle(c.key) + "_" + gname, *[f.ty.sort() for f in formals], gty.sort())
+                        fb2[gname] = V(gty, gd(*[f.z for f in formals]))
                     fb2["result"] = V(c.ret, app)
                     post = self.eval_contract(sub, c.ensures, {k: v for k, v in fb2.items() if k in contract_ast(c.ensures)[1]})
                     body = z3.Implies(z3.And(pre, *sub.pc) if sub.pc else pre, post)
@@ -544,6 +550,12 @@ class FullExecutor(Executor):
                 b2[gname] = fresh(gty, "ghost_" + gname)   # existentially quantified witness
             b2["result"] = result if result is not None else K(None)
             b2["old"] = PyObj(old_ns)
+            if c.params is not None:
+                for pn in c.params:       # a real parameter named like a reserved word is not visible to ensures
+                    if pn in ("result", "old"):
+                        b2.pop(pn, None)
+                b2["result"] = result if result is not None else K(None)
+                b2["old"] = PyObj(old_ns)
             s3.assume(self.eval_contract(s3, c.ensures, {k: v for k, v in b2.items() if k in contract_ast(c.ensures)[1]}))
         val = result if result is not None else K(None)
         if stmt_level:
